@@ -4,13 +4,32 @@ import (
 	"unsafe"
 
 	"github.com/cloudwego/gopkg/unsafex"
+
+	"verifharness/pre121"
 )
 
 // C20 — zero-copy conversions.
-// input  (op baseLen off len cap nilflag)   op 0: BinaryToString  op 1: StringToBinary
+// input  (op baseLen off len cap nilflag variant)   op 0: BinaryToString  op 1: StringToBinary
+//   variant 0: the build variant compiled into the library; 1: the !go1.21 file (generated copy, pre121)
 // output (ptrOff len cap contentEqual appendKeptOriginal appendContentOK)
 //   ptrOff = data pointer of the result minus data pointer of the base, -1 when len == 0
 var c20Kept [][]byte
+
+// the two build variants of unsafex: 0 = the file the toolchain compiles into the library (go1.21+),
+// 1 = the !go1.21 file, exercised through the generated copy harness/pre121 (see /verif/check gen_pre121)
+func c20B2S(variant int, b []byte) string {
+	if variant == 1 {
+		return pre121.BinaryToString(b)
+	}
+	return unsafex.BinaryToString(b)
+}
+
+func c20S2B(variant int, s string) []byte {
+	if variant == 1 {
+		return pre121.StringToBinary(s)
+	}
+	return unsafex.StringToBinary(s)
+}
 
 //go:noinline
 func c20StackKey(id byte, n int) []byte {
@@ -20,6 +39,16 @@ func c20StackKey(id byte, n int) []byte {
 	}
 	s := string(raw[:n])
 	return unsafex.StringToBinary(s)
+}
+
+//go:noinline
+func c20StackKey100(id byte, n int) []byte {
+	var raw [24]byte
+	for i := range raw {
+		raw[i] = id + byte(i)
+	}
+	s := string(raw[:n])
+	return pre121.StringToBinary(s)
 }
 
 //go:noinline
@@ -38,8 +67,9 @@ func init() {
 	register("C20", &Prop{
 		Gen: func(g *Gen) {
 			sizes := []int{0, 1, 2, 3, 7, 8, 15, 16, 17, 63, 64, 65, 255, 256, 1000}
-			for _, op := range []int{0, 1} {
-				g.Add("nil", Ls(I(op), I(0), I(0), I(0), I(0), I(1)))
+			for _, opv := range []int{0, 1, 2, 3} {
+				op, vr := opv%2, opv/2
+				g.Add("nil", Ls(I(op), I(0), I(0), I(0), I(0), I(1), I(vr)))
 				for _, bl := range sizes {
 					for _, off := range []int{0, 1, bl / 2, bl} {
 						if off > bl {
@@ -53,17 +83,17 @@ func init() {
 								if cp < ln || off+cp > bl {
 									continue
 								}
-								g.Add("sub", Ls(I(op), I(bl), I(off), I(ln), I(cp), I(0)))
+								g.Add("sub", Ls(I(op), I(bl), I(off), I(ln), I(cp), I(0), I(vr)))
 							}
 						}
 					}
 				}
-				// size classes beyond 1 GiB (untouched zero memory: cheap): conversions must not depend on
+				// size classes beyond 1, 2 and 4 GiB (untouched zero memory: cheap): conversions must not depend on
 				// any fixed maximum length
-				for _, bl := range []int{1 << 30, 1<<30 + 1, 1<<30 + 16} {
-					g.Add("huge", Ls(I(op), I(bl), I(0), I(bl), I(bl), I(0)))
-					g.Add("huge", Ls(I(op), I(bl), I(8), I(bl-8), I(bl-8), I(0)))
-					g.Add("huge", Ls(I(op), I(bl), I(bl-5), I(5), I(5), I(0)))
+				for _, bl := range []int{1 << 30, 1<<30 + 1, 1<<30 + 16, 1 << 31, 1<<31 + 3, 1 << 32, 1<<32 + 1, 1<<32 + 5} { // no 2^30, 2^31, 2^32 limits
+					g.Add("huge", Ls(I(op), I(bl), I(0), I(bl), I(bl), I(0), I(vr)))
+					g.Add("huge", Ls(I(op), I(bl), I(8), I(bl-8), I(bl-8), I(0), I(vr)))
+					g.Add("huge", Ls(I(op), I(bl), I(bl-5), I(5), I(5), I(0), I(vr)))
 				}
 				n := g.Scale(300, 20000)
 				for i := 0; i < n; i++ {
@@ -71,13 +101,20 @@ func init() {
 					off := g.R.Intn(bl + 1)
 					ln := g.R.Intn(bl - off + 1)
 					cp := ln + g.R.Intn(bl-off-ln+1)
-					g.Add("rand", Ls(I(op), I(bl), I(off), I(ln), I(cp), I(0)))
+					g.Add("rand", Ls(I(op), I(bl), I(off), I(ln), I(cp), I(0), I(vr)))
 				}
 			}
 		},
 		Run: func(in V) V {
 			a := AsList(in)
 			op, bl, off, ln, cp, nilf := AsInt(a[0]), AsInt(a[1]), AsInt(a[2]), AsInt(a[3]), AsInt(a[4]), AsInt(a[5])
+			vr := 0
+			if len(a) > 6 {
+				vr = AsInt(a[6])
+			}
+			if vr == 1 && !pre121.Generated {
+				return Ls(I(-99)) // the copy of unsafex_go100.go could not be made: the tie to that file is broken
+			}
 			var base []byte
 			huge := bl > 1<<26
 			if huge {
@@ -114,13 +151,13 @@ func init() {
 				}
 				if op == 0 {
 					b := base[off : off+ln : off+cp]
-					s := unsafex.BinaryToString(b)
+					s := c20B2S(vr, b)
 					po := int(uintptr(unsafe.Pointer(unsafe.StringData(s))) - uintptr(unsafe.Pointer(&base[0])))
 					return Ls(I(po), I(len(s)), I(len(s)), Bo(len(s) == ln && sample(func(i int) byte { return s[i] }, len(s))), I(1), I(1))
 				}
 				bs := unsafe.String(&base[0], len(base))
 				s := bs[off : off+ln]
-				b := unsafex.StringToBinary(s)
+				b := c20S2B(vr, s)
 				po := int(uintptr(unsafe.Pointer(&b[0])) - uintptr(unsafe.Pointer(&base[0])))
 				ok := len(b) == ln && sample(func(i int) byte { return b[i] }, len(b))
 				// cap == len is what makes an append reallocate; the append itself is not run at this size
@@ -132,7 +169,7 @@ func init() {
 					b = base[off : off+ln : off+cp]
 				}
 				want := append([]byte(nil), b...)
-				s := unsafex.BinaryToString(b)
+				s := c20B2S(vr, b)
 				po := -1
 				if len(s) > 0 {
 					po = int(uintptr(unsafe.Pointer(unsafe.StringData(s))) - uintptr(unsafe.Pointer(&base[0])))
@@ -145,7 +182,7 @@ func init() {
 				s = bs[off : off+ln]
 			}
 			want := []byte(s)
-			b := unsafex.StringToBinary(s)
+			b := c20S2B(vr, s)
 			po := -1
 			if len(b) > 0 {
 				po = int(uintptr(unsafe.Pointer(&b[0])) - uintptr(unsafe.Pointer(unsafe.StringData(bs))))
@@ -156,7 +193,12 @@ func init() {
 				// function and ONLY passed to the conversion; the result outlives that function and
 				// must keep the bytes alive (the conversion's result aliases its argument — a
 				// compiler that is not told so may keep the string in a dead stack frame)
-				k := c20StackKey(byte(off), ln)
+				var k []byte
+				if vr == 1 {
+					k = c20StackKey100(byte(off), ln)
+				} else {
+					k = c20StackKey(byte(off), ln)
+				}
 				c20Kept = append(c20Kept[:0], k)
 				c20Churn(8, 0xEE)
 				for i := range k {
